@@ -44,7 +44,7 @@ func genC04(t *rapid.T) C04Case {
 		op.Sess = rapid.IntRange(0, 4).Draw(t, "sess")
 		switch op.Op {
 		case "req":
-			op.Arg = rapid.SampledFrom([]string{"ping", "tools/list", "tools/call", "sess", "sess"}).Draw(t, "method")
+			op.Arg = rapid.SampledFrom([]string{"ping", "tools/list", "tools/call", "sess", "sess", "chatty", "chatty"}).Draw(t, "method")
 		}
 		if op.Class == "garbage" {
 			op.Arg2()
@@ -120,7 +120,28 @@ func c04Server(c C04Case) *mcp.Server {
 		}
 		return mcp.NewTextResult(fmt.Sprintf("calls-before=%d previous=%v", n, prev)), nil
 	})
+	// a tool that reports progress before it answers: on an event-stream response the first event commits the headers
+	s.RegisterTool(mcp.NewTool("chatty"), func(ctx context.Context, req *mcp.CallToolRequest) (*mcp.CallToolResult, error) {
+		if sender, ok := mcp.GetNotificationSender(ctx); ok {
+			sender.SendNotification(mcp.NewNotification("notifications/verif-chatty", map[string]interface{}{"n": 1}))
+			sender.SendNotification(mcp.NewNotification("notifications/verif-chatty", map[string]interface{}{"n": 2}))
+		}
+		return mcp.NewTextResult("chatty-done"), nil
+	})
 	return s
+}
+
+// answerFrames: the frames of an exchange that are answers (carry an id and a result or error); a handler that notifies
+// before it answers puts notification frames in front of the answer on an event-stream response.
+func answerFrames(ex Exchange) int {
+	n := 0
+	for _, f := range ex.Frames {
+		var v map[string]json.RawMessage
+		if json.Unmarshal(f, &v) == nil && v["id"] != nil && (v["result"] != nil || v["error"] != nil) {
+			n++
+		}
+	}
+	return n
 }
 
 func sessionOf(ctx context.Context) mcp.Session {
@@ -254,6 +275,8 @@ func execC04(c C04Case) *Failure {
 				switch op.method() {
 				case "tools/call":
 					body = `{"jsonrpc":"2.0","id":2,"method":"tools/call","params":{"name":"alpha","arguments":{"nonce":"x"}}}`
+				case "chatty":
+					body = `{"jsonrpc":"2.0","id":2,"method":"tools/call","params":{"name":"chatty","arguments":{}}}`
 				case "sess":
 					body = fmt.Sprintf(`{"jsonrpc":"2.0","id":2,"method":"tools/call","params":{"name":"sess","arguments":{"who":"u%d"}}}`, step%3)
 				default:
@@ -274,7 +297,7 @@ func execC04(c C04Case) *Failure {
 					return f
 				}
 				if op.Op == "init" || op.Op == "req" {
-					if ex.Status != 200 || len(ex.Frames) != 1 {
+					if ex.Status != 200 || answerFrames(ex) != 1 {
 						return Failf("C04/sessionless-request-refused", "%s: status %d frames %d (body %.120q)", where, ex.Status, len(ex.Frames), ex.Body)
 					}
 					if c.Cfg == 1 {
@@ -313,7 +336,7 @@ func execC04(c C04Case) *Failure {
 			default: // live id
 				switch op.Op {
 				case "init", "req":
-					if ex.Status != 200 || len(ex.Frames) != 1 {
+					if ex.Status != 200 || answerFrames(ex) != 1 {
 						return Failf("C04/live-request-not-served", "%s: status %d frames %d body %.120q", where, ex.Status, len(ex.Frames), ex.Body)
 					}
 					if f := checkHeader(ex, true); f != nil {
@@ -663,6 +686,239 @@ func TestC04DeleteRace(t *testing.T) {
 		},
 		Exec: execC04DelRace,
 		NT:   func(c C04DelRace) (bool, []string) { return true, []string{fmt.Sprintf("k=%d", c.K)} }})
+}
+
+// C04Conc: bursts of concurrent initialize / DELETE requests from several peers while other goroutines keep asking the
+// server for its live sessions. Whatever the interleaving, (a) an answer given during a burst contains every session
+// that was alive throughout the burst and none that was dead before it began or has never been issued, and (b) once the
+// burst is over the reported set equals the set the history leaves alive.
+type C04Conc struct {
+	Preload int     `json:"preload"` // sessions created before the first burst
+	Pollers int     `json:"pollers"`
+	Bursts  [][]int `json:"bursts"` // per burst, per worker: number of operations (each worker alternates init / delete of its own ids, pattern from Pat)
+	Pat     int     `json:"pat"`
+}
+
+func execC04Conc(c C04Conc) *Failure {
+	srv := c04Server(C04Case{Cfg: 0, GetSSE: true})
+	w := &World{Srv: srv, Path: "/mcp"}
+	hdr := map[string]string{"Content-Type": "application/json", "Accept": "application/json"}
+	initOne := func() (string, *Failure) {
+		ex := w.Direct("POST", "/mcp", hdr, InitRequest("1", "2025-03-26"))
+		id := ex.Header.Get("Mcp-Session-Id")
+		if ex.Status != 200 || id == "" {
+			return "", Failf("C04/no-id-issued", "initialize answered %d without id", ex.Status)
+		}
+		return id, nil
+	}
+	live := map[string]bool{}
+	dead := map[string]bool{}
+	for i := 0; i < c.Preload; i++ {
+		id, f := initOne()
+		if f != nil {
+			return f
+		}
+		live[id] = true
+	}
+	for b, burst := range c.Bursts {
+		stable := map[string]bool{}
+		for id := range live {
+			stable[id] = true
+		}
+		deadBefore := map[string]bool{}
+		for id := range dead {
+			deadBefore[id] = true
+		}
+		// each worker owns a share of the live sessions (it may delete them) and whatever it creates
+		owned := make([][]string, len(burst))
+		{
+			var ids []string
+			for id := range live {
+				ids = append(ids, id)
+			}
+			sort.Strings(ids)
+			for i, id := range ids {
+				if i%3 == 0 && len(burst) > 0 { // a third of the old sessions may go in this burst
+					k := (i / 3) % len(burst)
+					owned[k] = append(owned[k], id)
+					delete(stable, id)
+				}
+			}
+		}
+		type wres struct {
+			created, deleted []string
+			f                *Failure
+		}
+		res := make([]wres, len(burst))
+		var wg, pg sync.WaitGroup
+		stop := make(chan struct{})
+		pollFail := make(chan *Failure, c.Pollers)
+		issuedMu := sync.Mutex{}
+		issued := map[string]bool{}
+		for id := range live {
+			issued[id] = true
+		}
+		for p := 0; p < c.Pollers; p++ {
+			pg.Add(1)
+			go func() {
+				defer pg.Done()
+				for {
+					select {
+					case <-stop:
+						return
+					default:
+					}
+					act, err := srv.GetActiveSessions()
+					if err != nil {
+						pollFail <- Failf("C04/active-sessions-error", "burst %d: GetActiveSessions: %v", b, err)
+						return
+					}
+					seen := map[string]bool{}
+					for _, id := range act {
+						if seen[id] {
+							pollFail <- Failf("C04/live-set-duplicate", "burst %d: GetActiveSessions lists %q twice", b, id)
+							return
+						}
+						seen[id] = true
+						if deadBefore[id] {
+							pollFail <- Failf("C04/live-set-resurrects", "burst %d: GetActiveSessions lists %q, which was deleted before the burst began", b, id)
+							return
+						}
+					}
+					for id := range stable {
+						if !seen[id] {
+							pollFail <- Failf("C04/live-set-misses-live", "burst %d: GetActiveSessions (%d ids) misses %q, which is alive throughout the burst", b, len(act), id)
+							return
+						}
+					}
+				}
+			}()
+		}
+		for k, nops := range burst {
+			wg.Add(1)
+			go func(k, nops int) {
+				defer wg.Done()
+				mine := owned[k]
+				for i := 0; i < nops; i++ {
+					del := len(mine) > 0 && ((c.Pat>>(uint(k+i)%16))&1 == 1 || i == nops-1 && (c.Pat>>uint(k%8))&1 == 0)
+					if del {
+						id := mine[0]
+						mine = mine[1:]
+						ex := w.Direct("DELETE", "/mcp", map[string]string{"Mcp-Session-Id": id}, nil)
+						if ex.Status < 200 || ex.Status > 299 {
+							res[k].f = Failf("C04/delete-refused", "burst %d worker %d: DELETE of live session %q answered %d", b, k, id, ex.Status)
+							return
+						}
+						res[k].deleted = append(res[k].deleted, id)
+					} else {
+						id, f := initOne()
+						if f != nil {
+							res[k].f = f
+							return
+						}
+						issuedMu.Lock()
+						dup := issued[id]
+						issued[id] = true
+						issuedMu.Unlock()
+						if dup {
+							res[k].f = Failf("C04/id-reused", "burst %d worker %d: issued id %q was issued before", b, k, id)
+							return
+						}
+						mine = append(mine, id)
+						res[k].created = append(res[k].created, id)
+					}
+				}
+			}(k, nops)
+		}
+		wg.Wait()
+		close(stop)
+		pg.Wait()
+		select {
+		case f := <-pollFail:
+			return f
+		default:
+		}
+		for _, r := range res {
+			if r.f != nil {
+				return r.f
+			}
+			for _, id := range r.created {
+				live[id] = true
+			}
+			for _, id := range r.deleted {
+				delete(live, id)
+				dead[id] = true
+			}
+		}
+		// quiescent: the reported set is the one the history leaves alive (asked twice: a cached answer must not be stale either)
+		for rep := 0; rep < 2; rep++ {
+			act, err := srv.GetActiveSessions()
+			if err != nil {
+				return Failf("C04/active-sessions-error", "after burst %d: GetActiveSessions: %v", b, err)
+			}
+			sort.Strings(act)
+			var want []string
+			for id := range live {
+				want = append(want, id)
+			}
+			sort.Strings(want)
+			if strings.Join(act, ",") != strings.Join(want, ",") {
+				var missing, extra []string
+				am := map[string]bool{}
+				for _, id := range act {
+					am[id] = true
+					if !live[id] {
+						extra = append(extra, id)
+					}
+				}
+				for _, id := range want {
+					if !am[id] {
+						missing = append(missing, id)
+					}
+				}
+				return Failf("C04/live-set-mismatch", "after burst %d (%d workers, %d pollers): server reports %d live sessions, the history leaves %d alive; missing %v, listed although deleted %v", b, len(burst), c.Pollers, len(act), len(want), missing, extra)
+			}
+		}
+		// every live id is still served, every deleted one refused
+		for id := range live {
+			if ex := w.Direct("POST", "/mcp", map[string]string{"Content-Type": "application/json", "Accept": "application/json", "Mcp-Session-Id": id}, []byte(`{"jsonrpc":"2.0","id":9,"method":"ping"}`)); ex.Status != 200 {
+				return Failf("C04/live-request-not-served", "after burst %d: ping in live session %q answered %d", b, id, ex.Status)
+			}
+		}
+		for id := range dead {
+			if ex := w.Direct("POST", "/mcp", map[string]string{"Content-Type": "application/json", "Accept": "application/json", "Mcp-Session-Id": id}, []byte(`{"jsonrpc":"2.0","id":9,"method":"ping"}`)); ex.Status != 404 {
+				return Failf("C04/not-refused/req/dead/got"+fmt.Sprint(ex.Status), "after burst %d: ping bearing deleted id %q answered %d", b, id, ex.Status)
+			}
+		}
+	}
+	return nil
+}
+
+func TestC04Concurrent(t *testing.T) {
+	RunProp(t, Prop[C04Conc]{ID: "C04",
+		Gen: func(t *rapid.T) C04Conc {
+			c := C04Conc{Preload: rapid.SampledFrom([]int{0, 3, 20, 60, 150}).Draw(t, "preload"), Pollers: rapid.IntRange(1, 6).Draw(t, "pollers"), Pat: rapid.IntRange(0, 65535).Draw(t, "pat")}
+			nb := rapid.IntRange(1, 6).Draw(t, "bursts")
+			for i := 0; i < nb; i++ {
+				nw := rapid.IntRange(1, 6).Draw(t, "workers")
+				var ws []int
+				for k := 0; k < nw; k++ {
+					ws = append(ws, rapid.IntRange(1, 8).Draw(t, "nops"))
+				}
+				c.Bursts = append(c.Bursts, ws)
+			}
+			return c
+		},
+		Exec: execC04Conc,
+		NT: func(c C04Conc) (bool, []string) {
+			multi := false
+			for _, b := range c.Bursts {
+				if len(b) >= 2 {
+					multi = true
+				}
+			}
+			return multi, []string{fmt.Sprintf("pollers=%d", c.Pollers), fmt.Sprintf("preload=%d", c.Preload), fmt.Sprintf("bursts=%d", len(c.Bursts))}
+		}})
 }
 
 var _ = time.Second
